@@ -413,10 +413,15 @@ fn parse_cuts(p: &serde_json::Value) -> Vec<usize> {
 /// Long-stream family (count-based: not a partition enumeration): greeting + `n` items cycling through the message
 /// part of the menu, fed to the real framed reader whole and in fixed strides of k bytes for each k of a grid; what
 /// the reader yields must equal the reference decode every time.
-fn long_stream(n: usize, seed: u64) -> Result<u64, (String, String, serde_json::Value)> {
+/// `frames` > 0: the stream starts (behind READY) with one message of that many tiny frames (0 and 1 byte alternating).
+fn long_stream(n: usize, frames: usize, seed: u64) -> Result<u64, (String, String, serde_json::Value)> {
     let order = [4usize, 5, 3, 6, 7, 9, 8, 4, 5, 11, 6, 3];
     let mut s = rc::default_greeting();
     s.extend(rc::encode_ready("DEALER", Some(b"id7")));
+    if frames > 0 {
+        let m: Vec<Vec<u8>> = (0..frames).map(|i| if i % 2 == 0 { vec![] } else { vec![b'a' + (i % 26) as u8] }).collect();
+        s.extend(rc::encode_message(&m));
+    }
     for i in 0..n {
         let k = order[i % order.len()];
         // the big items only now and then, so that the stream stays a few hundred kB
@@ -442,8 +447,8 @@ fn long_stream(n: usize, seed: u64) -> Result<u64, (String, String, serde_json::
         if let Err(pn) = fed {
             return Err((
                 "panic/reader".into(),
-                format!("greeting + READY + {} messages fed {}: panic {}", n, if stride == 0 { "whole".to_string() } else { format!("{} bytes at a time", stride) }, pn),
-                json!({"engine":"E1","kind":"long-stream","n":n,"stride":stride,"seed":seed}),
+                format!("greeting + READY + {}{} messages fed {}: panic {}", if frames > 0 { format!("one message of {} frames + ", frames) } else { String::new() }, n, if stride == 0 { "whole".to_string() } else { format!("{} bytes at a time", stride) }, pn),
+                json!({"engine":"E1","kind":"long-stream","n":n,"frames":frames,"stride":stride,"seed":seed}),
             ));
         }
         runs += 1;
@@ -453,8 +458,8 @@ fn long_stream(n: usize, seed: u64) -> Result<u64, (String, String, serde_json::
             let first = got.iter().zip(&want).position(|(g, w)| g.as_ref().ok() != Some(w)).unwrap_or(got.len().min(want.len()));
             return Err((
                 "long-stream/differs-from-reference".into(),
-                format!("greeting + READY + {} messages fed {}: the reader yielded {} items, the reference decode has {}; first difference at item {}", n, if stride == 0 { "whole".to_string() } else { format!("{} bytes at a time", stride) }, got.len(), want.len(), first),
-                json!({"engine":"E1","kind":"long-stream","n":n,"stride":stride,"seed":seed}),
+                format!("greeting + READY + {}{} messages fed {}: the reader yielded {} items, the reference decode has {}; first difference at item {}", if frames > 0 { format!("one message of {} frames + ", frames) } else { String::new() }, n, if stride == 0 { "whole".to_string() } else { format!("{} bytes at a time", stride) }, got.len(), want.len(), first),
+                json!({"engine":"E1","kind":"long-stream","n":n,"frames":frames,"stride":stride,"seed":seed}),
             ));
         }
     }
@@ -480,7 +485,7 @@ pub fn run(tier: Tier, replay: Option<String>) -> i32 {
             });
         }
         if r["kind"] == "long-stream" {
-            return match long_stream(r["n"].as_u64().unwrap_or(0) as usize, r["seed"].as_u64().unwrap_or(0)) {
+            return match long_stream(r["n"].as_u64().unwrap_or(0) as usize, r["frames"].as_u64().unwrap_or(0) as usize, r["seed"].as_u64().unwrap_or(0)) {
                 Ok(_) => {
                     println!("replay: holds");
                     0
@@ -583,7 +588,14 @@ pub fn run(tier: Tier, replay: Option<String>) -> i32 {
     });
     let mut long_runs = 0u64;
     for &n in tier.pick(&[40usize, 300, 1100][..], &[40usize, 300, 1100, 5000][..]) {
-        match long_stream(n, seed) {
+        match long_stream(n, 0, seed) {
+            Ok(r) => long_runs += r,
+            Err(v) => viol.lock().unwrap().push(v),
+        }
+    }
+    // one message of very many frames in front of a short stream (frame counts around the powers of two)
+    for &f in tier.pick(&[255usize, 256, 257, 1023, 1024, 1025, 1026, 4097, 20_000][..], &[127usize, 128, 129, 255, 256, 257, 511, 512, 513, 1023, 1024, 1025, 1026, 2047, 2048, 2049, 4095, 4096, 4097, 20_000, 65_536, 65_537, 200_000][..]) {
+        match long_stream(12, f, seed) {
             Ok(r) => long_runs += r,
             Err(v) => viol.lock().unwrap().push(v),
         }
@@ -662,7 +674,7 @@ pub fn run(tier: Tier, replay: Option<String>) -> i32 {
         st + tr + ck.coverage.get("e3_executions").and_then(|v| v.as_u64()).unwrap_or(0),
     );
     ck.cov("exhaustive", true);
-    ck.cov("explanation", format!("states = (bytes fed, reader state) nodes summed over {} streams (greeting + up to {} items from a 12-item menu (plus 65536 B and 70000 B frames alone, in front of and behind small items)); transitions = edges p->q, each executed on the real FramedRead over a harness reader and required to land in the unique state recorded for q; cut set = every byte position for streams up to {} bytes, else every position within 12 bytes of an item/frame/length-field boundary plus 4096k+-1. Each stream additionally: reference decode of every prefix, and EOF at every cut. Long-stream family (count-based, not a partition enumeration): greeting + READY + 40 / 300 / 1100 (thorough 5000) messages fed whole and in 19 fixed strides (1 B .. 20 kB). Socket level: 7 socket types, all single cuts{} and byte-at-a-time delivery of greeting+READY+2 messages through real attach+recv; plus 'bulk behind the handshake' (the peer writes greeting + READY, optionally padded with an extra property of up to 20 kB (thorough 70 kB), + four 3 kB messages without waiting; one cut at every position of the greeting's tail and of READY, or READY cut once and the rest in 8 KiB pieces) for 5 socket types.", specs.len(), tier.pick(3, 4), dense_limit, tier.pick(", all pairs of cuts past byte 56", ", all pairs of cuts")));
+    ck.cov("explanation", format!("states = (bytes fed, reader state) nodes summed over {} streams (greeting + up to {} items from a 12-item menu (plus 65536 B and 70000 B frames alone, in front of and behind small items)); transitions = edges p->q, each executed on the real FramedRead over a harness reader and required to land in the unique state recorded for q; cut set = every byte position for streams up to {} bytes, else every position within 12 bytes of an item/frame/length-field boundary plus 4096k+-1. Each stream additionally: reference decode of every prefix, and EOF at every cut. Long-stream family (count-based, not a partition enumeration): greeting + READY + 40 / 300 / 1100 (thorough 5000) messages fed whole and in 19 fixed strides (1 B .. 20 kB); the same with one message of 255..20000 (thorough 200000) tiny frames in front (frame counts around the powers of two). Socket level: 7 socket types, all single cuts{} and byte-at-a-time delivery of greeting+READY+2 messages through real attach+recv; plus 'bulk behind the handshake' (the peer writes greeting + READY, optionally padded with an extra property of up to 20 kB (thorough 70 kB), + four 3 kB messages without waiting; one cut at every position of the greeting's tail and of READY, or READY cut once and the rest in 8 KiB pieces) for 5 socket types.", specs.len(), tier.pick(3, 4), dense_limit, tier.pick(", all pairs of cuts past byte 56", ", all pairs of cuts")));
     ck.sample(json!({"stream": build(&StreamSpec{items: vec![1,5]}, seed).2, "cut_positions": cut_set(build(&StreamSpec{items: vec![1,5]}, seed).0.len(), &[], 400).len()}));
     ck.assume("the reader's future behaviour is a function of (decoder Debug state, unread buffer bytes) and the remaining input — true of FramedRead2 + ZmqCodec, whose only fields these are");
     ck.assume("reads larger than 8 KiB are split by FramedRead2's own 8 KiB scratch buffer, as in production");
